@@ -283,3 +283,4 @@ PROP = C03()
 
 PROP.rule += (" Strata added while closing seeded changes (DESIGN section 10): "
               "mixed-case spellings of STRT/STOP/STEP/NULL, duplicated NULL, integers beyond 2**53 and beyond int64, one-sided brackets in units, '..' inside values, reads into a used LASFile.")
+PROP.rule += ' Round 8: numeral mnemonics (0, 1, -1, NAN), NaN/inf-looking text values.'
